@@ -161,7 +161,7 @@ func c18Sim(c *RunCtx, script c18script, err500, jsonMode bool, seedUnit int) (*
 
 // c18Run executes the script; fault != nil is injected into call #k of the target request.
 // It returns the steps, and the monitors' verdicts on the post-fault probes.
-func c18Run(c *RunCtx, script c18script, err500, jsonMode bool, unit, k int, fault error) (target *sim.Step, s *sim.Sim, vs []*sim.Violation, setupErr string) {
+func c18Run(c *RunCtx, script c18script, err500, jsonMode bool, unit, k int, fault error, more ...int) (target *sim.Step, s *sim.Sim, vs []*sim.Violation, setupErr string) {
 	s, err := c18Sim(c, script, err500, jsonMode, unit)
 	if err != nil {
 		return nil, nil, nil, err.Error()
@@ -171,6 +171,9 @@ func c18Run(c *RunCtx, script c18script, err500, jsonMode bool, unit, k int, fau
 		last := i == len(acts)-1
 		if last && fault != nil {
 			s.W.Faults = map[int]error{k: fault}
+			for _, k2 := range more {
+				s.W.Faults[k2] = fault
+			}
 		}
 		st := s.Exec(a)
 		if last {
@@ -377,6 +380,43 @@ func c18Unit(c *RunCtx, unit int) {
 				report(v)
 			}
 			sites = append(sites, site+"/"+kindName)
+		}
+	}
+	// thorough: every PAIR of call indices failing together (generic errors); oracles: no panic, no
+	// session on an unsaved consumption, nothing spent becomes acceptable, no secret left in clear
+	if c.Tier == "thorough" {
+		for k1 := 0; k1 < len(calls); k1++ {
+			for k2 := k1 + 1; k2 < len(calls); k2++ {
+				if calls[k1].Op == "mail" || calls[k1].Op == "mailrender" || calls[k2].Op == "mail" || calls[k2].Op == "mailrender" {
+					continue
+				}
+				st, s, pvs, serr := c18Run(c, script, err500, jsonMode, unit, k1, errGeneric, k2)
+				if serr != "" {
+					c.Stats.Inconclusive = append(c.Stats.Inconclusive, script.Name+": "+serr)
+					return
+				}
+				c.Stats.Evaluations++
+				c.Stats.Count("double-faults-injected")
+				rec := st.Rec
+				c.Stats.Sig(fmt.Sprintf("%s#%d:%s+#%d:%s/double → %d err=%v", script.Name, k1, calls[k1].Op, k2, calls[k2].Op, rec.Status, rec.HandlerErr != "" || rec.AdminErr != ""))
+				report := func(v *sim.Violation) {
+					c.Stats.Violations = append(c.Stats.Violations, sim.VioRec{Violation: *v, Index: unit, Cfg: s.Cfg.String(), History: tail(s.Hist, 12),
+						Detail: fmt.Sprintf("faults injected at calls #%d (%s) and #%d (%s); fault-free calls: %v\n%s", k1, calls[k1].Op, k2, calls[k2].Op, calls, sim.Detail(st))})
+				}
+				if rec.Panic != "" {
+					report(vio("C18", fmt.Sprintf("panic|%s|%s+%s|double", script.Name, calls[k1].Op, calls[k2].Op), "%s: errors from %s and %s made the request panic: %s", script.Name, calls[k1].Op, calls[k2].Op, trunc(rec.Panic, 160)))
+					continue
+				}
+				if (consumption(script.Name, calls, k1) || consumption(script.Name, calls, k2)) && st.UIDOut != "" && st.UIDOut != st.UIDIn && st.UIDOut == baseUID {
+					report(vio("C18", fmt.Sprintf("session-issued-though-consumption-not-saved|%s|double", script.Name), "%s: consumption failed (double fault) yet the session names %q", script.Name, st.UIDOut))
+					continue
+				}
+				for _, v := range pvs {
+					v.Sig = "C18|after-double-fault|" + script.Name + "|" + strings.TrimPrefix(v.Sig, v.Prop+"|")
+					v.Prop = "C18"
+					report(v)
+				}
+			}
 		}
 	}
 	if unit%nS == 0 || unit%7 == 0 {
